@@ -118,9 +118,11 @@ def state_diff(a, b):
 
 def small_bank(rng, k, cont=False, pools=None):
     pools = pools or gen.Pools(edges=['HD', 'NK', 'SB', '--'])
+    first = 0 if rng.random() < 0.25 else 1     # a sentence numbered 0
     return [gen.tree(rng, rng.randint(1, 8), pools,
                      max_arity=rng.choice([2, 3, 4]), p_unary=0.15,
-                     moves=0 if cont else rng.choice([0, 1, 2]), sid=j + 1)
+                     moves=0 if cont else rng.choice([0, 1, 2]),
+                     sid=j + first)
             for j in range(k)]
 
 
